@@ -260,14 +260,19 @@ func runC20(c *Check, w *World) {
 	}
 	rt := roles.terms(der)
 	var powFn *ssa.Function
+	repeatPad := false
 	rt.AltCode = func(alt *Term) (*Term, *Term, bool) {
 		// s   or   string(padding) + s   with s = strconv.FormatUint(number, 10) and len(padding) = digits - len(s)
 		s := alt
 		if alt.Op == "bin" && alt.Sym == "+" {
 			pad := alt.Args[0]
 			s = alt.Args[1]
-			okPad := pad.Op == "conv" && pad.Sym == "string" && pad.Args[0].Op == "makeslice" &&
-				pad.Args[0].Args[0].String() == "bin(-; "+rt.Digits+"; len("+s.String()+"))"
+			L := "len(" + s.String() + ")"
+			okPad := pad.Op == "conv" && pad.Sym == "string" && pad.Args[0].Op == "makeslice" && shortBy(nil, pad.Args[0].Args[0], L, rt.Digits)
+			if pad.Op == "call" && pad.Sym == "strings.Repeat" && len(pad.Args) == 2 && pad.Args[0].IsConst() && pad.Args[0].Sym == `"0"` && shortBy(nil, pad.Args[1], L, rt.Digits) {
+				okPad = true
+				repeatPad = true
+			}
 			if !okPad {
 				return nil, nil, false
 			}
@@ -313,7 +318,15 @@ func runC20(c *Check, w *World) {
 	EachInstr(der, func(in ssa.Instruction) {
 		if iff, ok := in.(*ssa.If); ok {
 			t := tb.Of(iff.Cond)
-			if t.Op == "bin" && t.Sym == "<" && t.Args[0].Op == "len" && t.Args[0].Args[0].Op == "call" && t.Args[0].Args[0].Sym == "strconv.FormatUint" && t.Args[1].String() == rt.Digits {
+			var L string
+			t.Walk(func(x *Term) bool {
+				if x.Op == "len" && x.Args[0].Op == "call" && x.Args[0].Sym == "strconv.FormatUint" {
+					L = x.String()
+					return false
+				}
+				return true
+			})
+			if L != "" && shortBy(t, nil, L, rt.Digits) {
 				okCond = true
 			}
 		}
@@ -333,7 +346,7 @@ func runC20(c *Check, w *World) {
 			}
 		}
 	})
-	c.Decide(okPadVal && nPad > 0, "R20.2.8", dfn, "pad-character", "short numbers are left-padded with the character '0' only", "the padding in front of a short number is not the character '0'", w.Pos(der.Pos()))
+	c.Decide(okPadVal && (nPad > 0 || repeatPad), "R20.2.8", dfn, "pad-character", "short numbers are left-padded with the character '0' only", "the padding in front of a short number is not the character '0'", w.Pos(der.Pos()))
 	// the number handed to FormatUint is the truncated value: same truncate function as native
 	gen := w.Func(OtpPath, "GenerateHOTP")
 	if gen != nil {
